@@ -51,6 +51,20 @@ fn gen_c11(r: &mut Rng, t: Tier, _job: u64) -> Plan {
             *caps |= CLIENT_SSL;
         }
     }
+    if p.cfg.auth_reject.is_some() && !p.cmds.is_empty() && r.coin() {
+        // whatever follows a rejected handshake (a half-sent command, a dead peer) must not
+        // change what run_on returns: end the stream somewhere behind the handshake. The
+        // unchanged server never reads that far, so the fault cannot fire there.
+        let (hdrs, total) = header_offsets(&p);
+        if hdrs.len() >= 2 && total > hdrs[1] {
+            let k = hdrs[1] + 1 + r.below(total - hdrs[1]);
+            p.faults.push(Fault {
+                at: FaultAt::ClientByte(k),
+                kind: FaultKind::Eof,
+                persistent: true,
+            });
+        }
+    }
     // commands already pipelined behind the handshake, in the same read or not
     p.arrival = match r.below(4) {
         0 => Arrival::lockstep(),
@@ -64,13 +78,41 @@ fn gen_c11(r: &mut Rng, t: Tier, _job: u64) -> Plan {
     p
 }
 
+/// a rejection decides the outcome: once after_authentication has refused, run_on returns the
+/// shim's error whatever the transport does afterwards
+fn extra_c11(plan: &Plan, out: &Outcome, vs: &mut Vec<Violation>) {
+    let Some(tok) = plan.cfg.auth_reject else { return };
+    let Some((auth_op, _)) = out.w.callbacks.first() else { return };
+    if out.model.auth.is_none() {
+        return;
+    }
+    let fault_after_auth = out.w.fault_fired.map(|f| f > *auth_op).unwrap_or(false);
+    if fault_after_auth && out.end != RunEnd::Token(tok) {
+        vs.push(v(
+            "reject-end",
+            format!("got {}", out.end.class()),
+            format!(
+                "the shim rejected with token {:#x} but run_on returned {:?} (the stream ended behind the handshake)",
+                tok, out.end
+            ),
+        ));
+    }
+    if out.w.callbacks.len() > 1 {
+        vs.push(v(
+            "reject-end",
+            "callback after rejection",
+            format!("callback after a rejected authentication: {}", out.w.callbacks[1].1.short()),
+        ));
+    }
+}
+
 pub fn c11() -> Simple {
     Simple {
         id: "C11",
         decided_by: "inputs (handshake responses) x configurations (TLS offered, accept/reject) x arrival schedule (commands pipelined behind the handshake)",
         rule_text: "one run = greeting + a handshake response in the 4.1 layout (random 32-bit capability masks with PROTOCOL_41, user names of 0..300 arbitrary non-NUL bytes, arbitrary trailing auth/db/plugin bytes) or the 3.20 layout, shim offering TLS or not, accepting or rejecting with a typed token, 0..5 commands released together with the handshake or after it; also CLIENT_SSL requested without TLS on offer. Oracle: first packet has id 0, protocol 10, NUL-terminated version, 8+1 scramble bytes, PROTOCOL_41 advertised, CLIENT_SSL advertised <=> TLS offered; after_authentication exactly once, before any other callback, with the user bytes as sent; reject => ERR 1045/28000, run_on returns that token, no command callback; accept => OK with the next sequence id. Distinct = plan signature.",
-        quick: 300_000,
-        thorough: 8_000_000,
+        quick: 1_500_000,
+        thorough: 20_000_000,
         budget_q: 60,
         budget_t: 600,
         owns: &[
@@ -86,9 +128,10 @@ pub fn c11() -> Simple {
             "resp-missing",
             "stall",
             "decode-myc",
+            "reject-end",
         ],
         gen: gen_c11,
-        extra: None,
+        extra: Some(extra_c11),
         assumptions: super::props::COMMON_ASSUME_PUB,
     }
 }
@@ -205,8 +248,8 @@ pub fn c18() -> Simple {
         id: "C18",
         decided_by: "schedules (split points of the byte stream around SSLRequest | ClientHello and chunking of all later TLS records) x configurations (TLS 1.3 / 1.2, client certificate, TLS offered or not, accept/reject)",
         rule_text: "one run = greeting, SSLRequest (seq 1), a real rustls client handshake with seeded randomness and key shares (byte-identical per seed), the full handshake response inside TLS (seq 2), 0..8 commands lock-step or pipelined; the first read returns exactly b bytes with b walking 0..329 with the job index (SSLRequest alone, +1 byte of TLS, partial record header, whole ClientHello, ...), later reads follow a seeded personality. Oracle: every server byte after the greeting packet belongs to a well-formed TLS record and the rustls client accepts the stream; after_authentication sees the user name sent inside TLS and the fixture client certificate chain (or none); callback log and decoded replies equal the reference model's (the same oracles as over plaintext); sequence ids continue (auth OK has id 3); TLS requested but not offered => run_on returns Err before after_authentication. Distinct = plan signature (includes first-read size and TLS configuration).",
-        quick: 25_000,
-        thorough: 600_000,
+        quick: 200_000,
+        thorough: 3_000_000,
         budget_q: 60,
         budget_t: 900,
         owns: &[
